@@ -82,6 +82,18 @@ def static_case(ctx, rng, idx):
     import hypergraphx as hgx
 
     h, uni = gen_hypergraph(rng)
+    static_eval(ctx, rng, idx, h)
+    from ..mutate import same_count_edit
+
+    if same_count_edit(rng, h):
+        ctx.event("re-evaluated-after-in-place-edit")
+        static_eval(ctx, rng, idx, h)
+
+
+def static_eval(ctx, rng, idx, h):
+    from hypergraphx.measures import s_centralities as sc
+    import hypergraphx as hgx
+
     S = observe(h)
     edges = list(S.edges)
     nodes = list(S.nodes)
@@ -263,6 +275,20 @@ def eigen_case(ctx, rng, idx):
     edges = sorted(edges)
     h = hgx.Hypergraph(edges)
     h.add_nodes(nodes)
+    eigen_eval(ctx, rng, idx, h, k, N)
+    from ..mutate import same_count_edit
+
+    if same_count_edit(rng, h, uniform_size=k, keep_connected=True):  # same object, same counts, other hyperedges
+        ctx.event("re-evaluated-after-in-place-edit")
+        eigen_eval(ctx, rng, idx, h, k, N)
+
+
+def eigen_eval(ctx, rng, idx, h, k, N):
+    import hypergraphx as hgx
+    from hypergraphx.measures import eigen_centralities as ec
+
+    nodes = list(range(N))
+    edges = sorted(tuple(e) for e in h.get_edges())
 
     def wit(extra=None):
         return {"k": k, "N": N, "edges": edges, "extra": repr(extra)[:800]}
